@@ -124,6 +124,8 @@ func valueGraphShape(v interface{}) string {
 	return sb.String()
 }
 
+type subSlices struct{ A, B, C []string }
+
 type graphCase struct {
 	Succ    [][]int `json:"succ"`
 	Markers int     `json:"markers"`
@@ -465,6 +467,20 @@ func checkC20(c *Check) {
 			mroot[fmt.Sprintf("k%04d", i)] = sm
 		}
 		graphRoundTrip(c, cfg, mroot, mapGraphShape, fmt.Sprintf("one map referenced %d times as a map value", n), 1, n-1, fmt.Sprint("manymaprefs", n))
+	}
+	// slices that begin at the same address but differ in length are different lists
+	for _, lens := range [][3]int{{2, 3, 2}, {3, 2, 3}, {1, 4, 2}, {4, 4, 2}} {
+		words := []string{"one", "two", "three", "four"}
+		sv := &subSlices{A: words[:lens[0]], B: words[:lens[1]], C: words[:lens[2]]}
+		graphRoundTrip(c, cfg, sv, func(v interface{}) string { return absValue(v) }, fmt.Sprintf("three string slices of lengths %v over one backing array", lens), -1, -1, fmt.Sprint("subslices-values", lens))
+		// the same with pointers as elements: the elements are shared between the slices as well
+		leaves := []*gNode{{ID: 11}, {ID: 12}, {ID: 13}, {ID: 14}}
+		root := &gNode{ID: 1, L: &gNode{ID: 2, Kids: leaves[:lens[1]]}, R: &gNode{ID: 3, Kids: leaves[:lens[2]]}, Kids: leaves[:lens[0]]}
+		dev := ""
+		if lens[0] != lens[1] || lens[1] != lens[2] {
+			dev = "subslice-elements-lose-sharing"
+		}
+		graphRoundTripDev(c, cfg, root, shape, fmt.Sprintf("three pointer slices of lengths %v over one backing array", lens), -1, -1, fmt.Sprint("subslices", lens), dev)
 	}
 	// a pointer to a struct and a pointer to its first field share an address
 	p := &pairFirst{First: 7, Second: "s"}
